@@ -14,8 +14,8 @@ on a fresh terminal; everything a redraw writes lies between exactly one synchro
 begin/end pair and is flushed; after start / stop / clear no placement remains; all live kitty
 widgets hold pairwise distinct z-indexes within [-(2**31-1), 2**31-1]; nothing raises.
 
-Part Z: the z-index allocator alone - BFS over create / delete+gc orders, also from states seeded
-next to the 2**31 limit.
+Part Z: the z-index allocator alone - BFS over create / delete+gc orders of widgets of UrwidImage AND of a
+subclass of it (one allocator for all), also from states seeded next to the 2**31 limit.
 """
 from __future__ import annotations
 
@@ -324,12 +324,12 @@ def z_execute(col, seed, history, judge_last=True):
     return key
 
 
-def z_bfs(col, tier):
+def z_bfs(col, tier, seeds=None):
     depth = 8 if tier == "quick" else 11
     max_live = 4 if tier == "quick" else 5
     states = set()
     transitions = 0
-    for seed in Z_SEEDS:
+    for seed in (Z_SEEDS if seeds is None else seeds):
         seen = {}
         k0 = z_execute(col, seed, [])
         seen[k0] = []
@@ -374,9 +374,9 @@ def _shard(items):
             unmerged(col, cfg, _TIER, start, cfg["udepth"], col.table)
             continue
         if item[0] == "Z":
-            s, t = z_bfs(col, _TIER)
+            s, t = z_bfs(col, _TIER, [item[1]])
             col.transitions += t
-            col.zstates = s
+            col.zstates = getattr(col, "zstates", 0) + s
             continue
         _, cfg, start = item
         col.transitions += bfs(col, cfg, _TIER, start, cfg["depth"], col.keys)
@@ -388,7 +388,7 @@ def run(ctx):
     global _CTX, _TIER
     _CTX, _TIER = ctx, ctx.tier
     world.load_urwid()
-    items = [("Z", None, None)]
+    items = [("Z", seed, None) for seed in Z_SEEDS]
     rts = roots(ctx.tier)
     probe = ctx.new_collector()
     for cfg in rts:
